@@ -56,6 +56,15 @@ LEAVES = [
      [], "bool", {}),
     ("Register", "sync_close_goodbyes_before_done", "_core.py", "Zeroconf.close", ("call_before", "self.unregister_all_services", "self._close"),
      [], "bool", {}),
+    # since D27 the goodbyes of async_unregister_service leave through _async_send_repeatedly, those of a close / unregister-all through the
+    # loop of async_unregister_all_services: the ranges and intervals of THOSE loops (the model's goodbye task and close sequence are written
+    # with broadcast_count / unregisterTime; GenFacts.Goodbye.goodbye_loops proves the two goodbye loops have the same range and interval)
+    ("Register", "goodbye_count", "_core.py", "Zeroconf._async_send_repeatedly", ("range_arg", 0), [], "num", {"nat": True}),
+    ("Register", "goodbye_sleeps", "_core.py", "Zeroconf._async_send_repeatedly", ("if", "i != 0", 0), [P("i", "i")], "bool", {"nat": True}),
+    ("Register", "goodbye_interval", "_core.py", "Zeroconf.async_unregister_service", ("arg", "_async_send_repeatedly", 1, 0), [], "num", {"nat": True}),
+    ("Register", "goodbye_all_count", "_core.py", "Zeroconf.async_unregister_all_services", ("range_arg", 0), [], "num", {"nat": True}),
+    ("Register", "goodbye_all_sleeps", "_core.py", "Zeroconf.async_unregister_all_services", ("if", "i != 0", 0), [P("i", "i")], "bool", {"nat": True}),
+    ("Register", "goodbye_all_interval", "_core.py", "Zeroconf.async_unregister_all_services", ("arg", "millis_to_seconds", 0, 0), [], "num", {"nat": True}),
     # D27 repair: async_unregister_service builds the goodbye packet itself, at call time (the task re-sends it), instead of letting
     # the task read the ServiceInfo object again at each step (false on a tree without the repair)
     ("Register", "unregister_builds_goodbye_at_call", "_core.py", "Zeroconf.async_unregister_service", ("has_call", "self.generate_service_broadcast"),
